@@ -27,8 +27,12 @@
     C03_accepted_representable (+ _fragment), C03_accepted_serialises, C03_accepted_roundtrip (+ _fragment)
                           accepted ⇒ in the C01 domain ⇒ every name writable ⇒ `to_string` succeeds and
                           its text parses back to the SAME tree — under the decidable tree guards
-                          `NoReservedDecls` (the known findings) and `PlainPiTargets` (see there)
-    C03_accepted_roundtrip_false, C03_accepted_xml_pi_false   the guards are needed (closed witnesses)
+                          `NoReservedDecls` (no declaration of the prefix `xml`: the known finding) and
+                          `PlainPiTargets` (targets without a colon)
+    C03_accepted_roundtrip_false   the first guard is needed (closed witness: `xml` rebound)
+    C03_reject_reserved_declaration, C03_reject_prefixed_undeclaration, C03_reject_pi_target_xml
+                          (/repo 6153ddf, a5dcf8e, 002854f) the former witnesses against the clause are
+                          now rejected, in every builder state; closed examples on strings
 -/
 import XotModel.Lemmas.ParseSound
 import XotModel.Lemmas.ParseNoPanic
@@ -232,12 +236,109 @@ example : (build .document dupExpandedLen Env.fresh dupExpanded none).err? =
 /-- C03_reject_prefix_twice: a prefix already declared on this start tag. -/
 theorem C03_reject_prefix_twice (b : Builder) (eb : ElementBuilder) (pfx : Str) (uri : StrSpan) (sp : Span) (u : Str)
     (heb : b.eb = some eb) (hdec : parseContentGo true uri.start 0 uri.text = .ok u)
+    (hres : reservedDecl pfx u = false)
     (hdup : (eb.namespaces.any fun d => d.1 == (b.env.internPrefix pfx).2) = true) :
     b.prefix pfx uri sp = .err (.duplicateAttribute (declDisplayName pfx) sp)
       ((b.env.internPrefix pfx).1.internNamespace u).1 := by
   unfold Builder.prefix
   rw [hdec]
-  simp only [heb, hdup, if_true]
+  simp only [hres, Bool.false_eq_true, if_false, heb, hdup, if_true]
+
+/-- **C03_reject_reserved_declaration** (/repo 6153ddf): a namespace declaration whose DECODED value
+    makes it one of the declarations Namespaces in XML reserves — the prefix `xmlns` declared, another
+    prefix than `xml` (the default namespace included) bound to the XML namespace name, anything bound
+    to the xmlns namespace name — is refused with `InvalidNamespaceDeclaration(attribute name, name
+    span)`, in every builder state, before anything is interned and before the duplicate test. -/
+theorem C03_reject_reserved_declaration (b : Builder) (pfx : Str) (uri : StrSpan) (sp : Span) (u : Str)
+    (hdec : parseContentGo true uri.start 0 uri.text = .ok u)
+    (hres : pfx = ['x', 'm', 'l', 'n', 's'] ∨ (pfx ≠ ['x', 'm', 'l'] ∧ u = xmlNamespaceUri) ∨
+      u = xmlnsNamespaceUri) :
+    b.prefix pfx uri sp = .err (.invalidNamespaceDeclaration (declDisplayName pfx) sp) b.env := by
+  have hr : reservedDecl pfx u = true := by
+    simp only [reservedDecl, Bool.or_eq_true, Bool.and_eq_true, beq_iff_eq, bne_iff_ne, ne_eq]
+    rcases hres with h | h | h
+    · exact .inl (.inl (.inl h))
+    · exact .inl (.inl (.inr h))
+    · exact .inl (.inr h)
+  unfold Builder.prefix
+  rw [hdec]
+  simp only [hr, if_true]
+
+/-- **C03_reject_prefixed_undeclaration** (/repo a5dcf8e): `xmlns:p=""` — a non-empty prefix other than
+    `xml` bound to the empty namespace name — is refused the same way (Namespaces in XML 1.0, "No Prefix
+    Undeclaring"); only `xmlns=""` undeclares. -/
+theorem C03_reject_prefixed_undeclaration (b : Builder) (pfx : Str) (uri : StrSpan) (sp : Span)
+    (hdec : parseContentGo true uri.start 0 uri.text = .ok [])
+    (hp : pfx ≠ []) (hx : pfx ≠ ['x', 'm', 'l']) :
+    b.prefix pfx uri sp = .err (.invalidNamespaceDeclaration (declDisplayName pfx) sp) b.env := by
+  have hr : reservedDecl pfx [] = true := by
+    have h1 : pfx.isEmpty = false := by simpa using hp
+    have h2 : (pfx != ['x', 'm', 'l']) = true := by simpa using hx
+    simp [reservedDecl, h1, h2]
+  unfold Builder.prefix
+  rw [hdec]
+  simp only [hr, if_true]
+
+/-- The converse: a declaration the test lets through is not refused with that variant (what remains
+    accepted of the reserved names is the prefix `xml` bound to any name: `reservedDecl` exempts it). -/
+theorem C03_reserved_declaration_only (b : Builder) (pfx : Str) (uri : StrSpan) (sp : Span) (u : Str)
+    (hdec : parseContentGo true uri.start 0 uri.text = .ok u) (hres : reservedDecl pfx u = false)
+    (n : Str) (sp' : Span) (env' : Env) :
+    b.prefix pfx uri sp ≠ .err (.invalidNamespaceDeclaration n sp') env' := by
+  unfold Builder.prefix
+  rw [hdec]
+  simp only [hres, Bool.false_eq_true, if_false]
+  split
+  · simp
+  · split <;> simp
+
+example : reservedDecl ['x', 'm', 'l'] ['z'] = false ∧ reservedDecl ['x', 'm', 'l'] [] = false ∧
+    reservedDecl ['x', 'm', 'l'] xmlNamespaceUri = false ∧ reservedDecl [] [] = false ∧
+    reservedDecl ['p'] ['u'] = false ∧ reservedDecl ['x', 'm', 'l'] xmlnsNamespaceUri = true := by decide
+
+/-- `<a xmlns:xmlns="u"/>`, `<a xmlns:p="http://www.w3.org/XML/1998/namespace"/>`,
+    `<a xmlns="http://www.w3.org/2000/xmlns/"/>`, `<a xmlns:p="http://www.w3.org/2000/xmlns&#x2F;"/>` and
+    `<a xmlns:p="" p:xmlns="v"/>` as STRINGS (reference tokenizer + builder, from `Xot::new()`'s tables):
+    rejected, with the span of the declaring attribute's name. -/
+example :
+    (∃ env', parseString .document Env.fresh (renderTokens xmlnsPrefixTokens) =
+      .err (.invalidNamespaceDeclaration "xmlns:xmlns".toList ⟨3, 14⟩) env') ∧
+    (∃ env', parseString .document Env.fresh (renderTokens xmlUriTokens) =
+      .err (.invalidNamespaceDeclaration "xmlns:p".toList ⟨3, 10⟩) env') ∧
+    (∃ env', parseString .document Env.fresh (renderTokens xmlnsUriTokens) =
+      .err (.invalidNamespaceDeclaration "xmlns".toList ⟨3, 8⟩) env') ∧
+    (∃ env', parseString .document Env.fresh (renderTokens xmlnsUriRefTokens) =
+      .err (.invalidNamespaceDeclaration "xmlns:p".toList ⟨3, 10⟩) env') ∧
+    (∃ env', parseString .document Env.fresh (renderTokens undeclTokens) =
+      .err (.invalidNamespaceDeclaration "xmlns:p".toList ⟨3, 10⟩) env') :=
+  ⟨rejection_spec reserved_rejected.1.1 reserved_rejected.1.2,
+   rejection_spec reserved_rejected.2.1.1 reserved_rejected.2.1.2,
+   rejection_spec reserved_rejected.2.2.1.1 reserved_rejected.2.2.1.2,
+   rejection_spec reserved_rejected.2.2.2.1 reserved_rejected.2.2.2.2,
+   rejection_spec undecl_rejected.1 undecl_rejected.2⟩
+
+/-- **C03_reject_pi_target_xml** (/repo 002854f): a processing instruction whose target is `xml` in any
+    letter case is refused with `InvalidTarget(target, target span)`, in every builder state, and
+    nothing is interned.  (xmlparser itself only refuses the literal `<?xml ` outside the prolog.) -/
+theorem C03_reject_pi_target_xml (b : Builder) (target : StrSpan) (content : Option StrSpan) (sp : StrSpan)
+    (h : target.text.map asciiLowerChar = ['x', 'm', 'l']) :
+    b.step (.pi target content sp) = .err (.invalidTarget target.text target.span) b.env := by
+  have : isReservedPiTarget target.text = true := by simp [isReservedPiTarget, h]
+  simp only [Builder.step, this, if_true]
+
+/-- Any other target goes through to the builder. -/
+theorem C03_pi_target_other (b : Builder) (target : StrSpan) (content : Option StrSpan) (sp : StrSpan)
+    (h : target.text.map asciiLowerChar ≠ ['x', 'm', 'l']) :
+    b.step (.pi target content sp) = .ok (b.processingInstruction target content) := by
+  have : isReservedPiTarget target.text = false := by simpa [isReservedPiTarget] using h
+  simp only [Builder.step, this, Bool.false_eq_true, if_false]
+
+/-- The tokens of `<a><?xml` TAB `x?></a>` (as the tokenizer returns them) and the text `<a><?XmL?></a>`. -/
+example : (build .document 17 Env.fresh xmlPiTokens none).err? = some (.invalidTarget ['x', 'm', 'l'] ⟨5, 8⟩) := by
+  rw [build_eq_buildE]; decide +kernel
+example : ∃ env', parseString .document Env.fresh (renderTokens xmlPiMixedTokens) =
+    .err (.invalidTarget ['X', 'm', 'L'] ⟨5, 8⟩) env' :=
+  rejection_spec xmlPi_rejected.2.1 xmlPi_rejected.2.2
 
 /-- `<a xmlns:p='u' xmlns:p='v'/>` is rejected at the second `xmlns:p`. -/
 example : (build .document prefixTwiceLen Env.fresh prefixTwice none).err? =
@@ -327,10 +428,11 @@ example : (build .document dupIdSpacesLen Env.fresh dupIdSpaces none).err? =
     some (.duplicateId ['i'] ⟨25, 29⟩) := by
   rw [build_eq_buildE]; decide +kernel
 
-/-- `<a xmlns:p='http://www.w3.org/XML/1998/namespace' p:id=' x '><b xml:id='x'/></a>` is rejected
-    (before /repo 7427b0a the first value stayed ` x ` and the text was accepted). -/
+/-- `<a xmlns:p='http://www.w3.org/XML/1998/namespace' p:id=' x '><b xml:id='x'/></a>` is rejected — since
+    /repo 6153ddf already at the declaration (another prefix for the XML namespace); between 7427b0a and
+    that commit as a duplicate ID; before 7427b0a the first value stayed ` x ` and the text was accepted. -/
 example : (build .document dupIdViaOtherPrefixLen Env.fresh dupIdViaOtherPrefix none).err? =
-    some (.duplicateId ['x'] ⟨72, 73⟩) := by
+    some (.invalidNamespaceDeclaration ['x', 'm', 'l', 'n', 's', ':', 'p'] ⟨3, 10⟩) := by
   rw [build_eq_buildE]; decide +kernel
 
 /-- C03_reject_truncated: input that ends inside a start tag. -/
@@ -555,14 +657,15 @@ example : lexDocument ['x', '<', 'a', '/', '>'] = ([], some 0) :=
 `envOK env`: the tables hold the built-in values of `Xot::new` at their ids and no value twice — true of
 `Xot::new()` (C08) and kept by every interning step (`C03_accepted_tables`; Lemmas/AcceptedDefs `EnvReach`).
 Guards, both decidable on the TREE (Lemmas/AcceptedDefs.lean):
-* `NoReservedDecls env t`: no namespace node binds the prefix `xml` or `xmlns`, binds anything to the
-  XML or the xmlns namespace name, or binds a non-empty prefix to the empty name — exactly the inputs of the
-  known findings `C03:reserved-prefix-or-namespace-rebound-accepted`, `C03:prefixed-undeclaration-accepted`.
-* `PlainPiTargets env t`: every PI target is an NCName other than `xml` in any letter case.  xmlparser
-  reads a target with `consume_name` (colons allowed) and only refuses the literal `<?xml `: targets
-  such as `a:b`, `XML` are accepted and do round-trip on the crate, but lie outside `Representable`
-  (Model/SerTokens.lean asks for an NCName ≠ xml: narrower than needed); `<?xml` TAB `x?>` is
-  accepted and does NOT survive (`C03_accepted_xml_pi_false`: a defect). -/
+* `NoReservedDecls env t`: no namespace node declares the prefix `xml` — the inputs of the known
+  findings `C03:xml-prefix-rebound-accepted` / `C03:not-representable-xml-prefix-rebound` (and the
+  permitted, never serialised `xmlns:xml="http://www.w3.org/XML/1998/namespace"`).  The other reserved
+  declarations and `xmlns:p=""` are rejected (`C03_reject_reserved_declaration`,
+  `C03_reject_prefixed_undeclaration`), so the guard no longer mentions them.
+* `PlainPiTargets env t`: every PI target is an NCName (no colon).  xmlparser reads a target with
+  `consume_name` (colons allowed): targets such as `a:b` are accepted and do round-trip on the crate,
+  but lie outside `Representable` (Model/SerTokens.lean asks for an NCName: narrower than needed).  The
+  target `xml` in any letter case is rejected (`C03_reject_pi_target_xml`). -/
 
 /-- (a) What the reference tokenizer enforces, on every token of every input, in both modes. -/
 theorem C03_lex_classes (m : Mode) (s : Str) : ∀ t ∈ (lexMode m s).1, t.accLex = true :=
@@ -628,13 +731,16 @@ def C03_accepted_roundtrip_Statement : Prop :=
     ∃ s', toXmlString p.env p.tree [] = .ok s' ∧ ∃ p', parseString .document p.env s' = .ok p' ∧
       deepEqual p'.tree p.tree = true
 
-/-- It is false, and `NoReservedDecls` is what fails: `<a xmlns:p="" p:xmlns="v"/>` (accepted;
-    serialised `<a xmlns:p="" xmlns="v"/>`, where the attribute has become a declaration) and
-    `<a xmlns:xml="" xmlns:p="http://www.w3.org/XML/1998/namespace" p:id="i"/>` (serialised
-    `<a xmlns:xml="" xml:id="i"/>`) are accepted, serialise, reparse, and are not `deep_equal`. -/
+/-- It is false, and `NoReservedDecls` is what fails:
+    `<a xmlns:xml="zzz"><b xmlns:xml="http://www.w3.org/XML/1998/namespace" xml:id="i"/></a>` — the prefix
+    `xml` rebound (known finding C03:xml-prefix-rebound-accepted) and bound back below — is accepted,
+    serialises to `<a xmlns:xml="zzz"><b xml:id="i"/></a>` (a binding of the XML namespace is never
+    written), that text is accepted again, and the trees are not `deep_equal`: `xml:id` has become
+    `{zzz}id` (C03:not-representable-xml-prefix-rebound). -/
 theorem C03_accepted_roundtrip_false : ¬ C03_accepted_roundtrip_Statement := by
   intro hall
-  obtain ⟨p, h1, _, _, h4, p', h5, h6⟩ := roundTripBroken_spec undecl_broken.1 undecl_broken.2.1 undecl_broken.2.2
+  obtain ⟨p, h1, _, _, h4, p', h5, h6⟩ :=
+    roundTripBroken_spec xmlRebound_broken.1 xmlRebound_broken.2.1 xmlRebound_broken.2.2
   obtain ⟨s', k1, q, k2, k3⟩ := hall Env.fresh _ p good_accepted.2.2.1 h1
   rw [h4] at k1
   cases k1
@@ -650,17 +756,14 @@ example : ∃ p, parseString .document Env.fresh (renderTokens xmlReboundTokens)
     roundTripBroken_spec xmlRebound_broken.1 xmlRebound_broken.2.1 xmlRebound_broken.2.2
   exact ⟨p, h1, h2, _, p', h4, h5, h6⟩
 
-/-- `PlainPiTargets` hides a defect.  A processing instruction whose target is `xml`, written with
-    white space other than a blank after the target (`<a><?xml` TAB `x?></a>`), is accepted: the builder
-    accepts its tokens (`xmlPiTokens`: target `xml`, content `x`) inside `NoReservedDecls` and the tree
-    serialises to `<a><?xml x?></a>` (first part) — and the tokenizer refuses `<?xml ` in element content,
-    in both modes, after ANY canonical prefix (second part): the serialisation is not accepted again. -/
-theorem C03_accepted_xml_pi_false :
-    xmlPiAccepted = true ∧
+/-- The former second gap is closed: the serialisation of a tree with a PI target `xml` would not be
+    accepted again (the tokenizer refuses `<?xml ` in element content, in both modes, after ANY canonical
+    prefix) — and since /repo 002854f no such tree is accepted (`C03_reject_pi_target_xml`). -/
+theorem C03_xml_pi_text_rejected :
     ∀ (frag : Bool) (ts : List Token) (d : Nat) (rest : Str), LexOK frag ts = true →
       ctxAfter frag (LexCtx.init frag) ts = .content d → ∀ (env : Env) (p : Parsed),
         parseString (modeOf frag) env (renderTokens ts ++ (['<', '?', 'x', 'm', 'l', ' '] ++ rest)) ≠ .ok p := by
-  refine ⟨xmlPi_accepted, fun frag ts d rest hok hctx env p => ?_⟩
+  intro frag ts d rest hok hctx env p
   have h : lexMode (modeOf frag) (renderTokens ts ++ (['<', '?', 'x', 'm', 'l', ' '] ++ rest)) =
       (placeTokens 0 ts, some (strLen (renderTokens ts))) :=
     reject_content frag ts d _ ('?' :: 'x' :: 'm' :: 'l' :: ' ' :: rest) rfl hok hctx (failsAt_xml_pi frag d _ rest)
